@@ -147,8 +147,10 @@ ResumeWrites(S) ==
      IF S.inflight[i].t = "PUBLISH" THEN [S.inflight[i].pk EXCEPT !.dup = 1] ELSE S.inflight[i].pk]
 
 SessionExpired(seik, sei, secs) ==      \* seik \in {"zero", "finite", "never"}
-  IF seik = "zero" THEN TRUE ELSE IF seik = "never" THEN FALSE ELSE secs > sei
-   \* "never" = 0xFFFFFFFF; the boundary second secs = sei is never probed
+  IF seik = "zero" THEN TRUE ELSE IF seik = "never" THEN FALSE ELSE secs >= sei
+   \* "never" = 0xFFFFFFFF.  `secs` is the whole number of seconds between the recorded disconnection and the reconnection;
+   \* some time has always passed on top of it, so with secs = sei the interval has elapsed (the harness never probes
+   \* secs = sei - 1, where the clock may or may not tick over during the run)
 
 \* ------------------------------------------------------------------------------------------
 \* caller side: one poll of an operation future
